@@ -198,6 +198,16 @@ def opsOk (s : HS) : List Op → Bool
       | _ => true
     ok && opsOk (step () s op).1 ops
 
+/-- number of dispatches in an operation list -/
+def getCount : List Op → Nat
+  | [] => 0
+  | .get :: ops => getCount ops + 1
+  | _ :: ops => getCount ops
+
+/-- hypotheses of the property theorems on an operation list: the operations are legal and
+    there are fewer than 2^31−1 dispatches (a load ≥ 0 then always means "marked down") -/
+def wfOps (ops : List Op) : Bool := opsOk HS.init ops && decide (getCount ops < 2147483647)
+
 def comp (which : Nat) : TComp Unit HS Op Obs where
   decCfg := fun _ => some ()
   init := fun _ => HS.init
@@ -206,6 +216,6 @@ def comp (which : Nat) : TComp Unit HS Op Obs where
   encObs := encObs
   decObs := decObs
   spec := if which = 3 then specC03 else specC04
-  wf := fun _ ops => opsOk HS.init ops
+  wf := fun _ ops => wfOps ops
 
 end Scales.Heap
